@@ -22,7 +22,7 @@ ASSUMPTIONS = [
     "cron recurrence not exercised (croniter absent); recurrence via deferred_by",
 ]
 EVAL_COUNTER = "deliveries_judged"
-REQUIRED = ["deliveries_judged", "exp_ack", "exp_nack", "exp_retry", "exp_reschedule", "exp_eager", "sentinels_acked", "cells_with_unencodable_return", "runs_on_the_default_connection", "redeliveries_compared", "runs_without_a_results_broker", "unprintable_failures_judged", "cells_whose_argument_bucket_is_gone"]
+REQUIRED = ["deliveries_judged", "exp_ack", "exp_nack", "exp_retry", "exp_reschedule", "exp_eager", "sentinels_acked", "cells_with_unencodable_return", "runs_on_the_default_connection", "redeliveries_compared", "runs_without_a_results_broker", "unprintable_failures_judged", "cells_whose_argument_bucket_is_gone", "answers_given_while_being_cancelled"]
 CASE_TIMEOUT = 120
 
 EAGER = ("ack", "nack", "reject", "retry", "force_retry", "reschedule")
@@ -40,6 +40,8 @@ def all_cells():
             outs.append(f"eager:{a}:{v}")
     # an eager (forced) retry followed by an ordinary failure of the next delivery
     outs += ["eager:force_retry:thenfail", "eager:retry:thenfail", "eager:force_retry:thenfail2"]
+    # the execution runs into its time limit and the actor answers for the message itself while it is being cancelled
+    outs += [f"cancel_eager:{a}" for a in EAGER]
     # the eager response comes from inside a dependency provider, before the actor body
     outs += [f"depeager:{a}" for a in EAGER]
     cells = []
@@ -51,6 +53,8 @@ def all_cells():
         if o in ("badpayload", "depfail", "lostargs") and pos != "first":
             continue
         if o.startswith("depeager") and (pos != "first" or (o.endswith(":retry") and N == 0)):
+            continue
+        if o.startswith("cancel_eager") and pos != "first":
             continue
         if o.endswith(":res") or o.endswith(":exc"):
             if not store:
@@ -75,7 +79,7 @@ def gen_cases(tier, seed):
             i += n
 
     if tier == "quick":
-        forced = [c for c in cells if c["o"] in ("lostargs", "raise:Unprintable") and c["pos"] == "first"]
+        forced = [c for c in cells if (c["o"] in ("lostargs", "raise:Unprintable") or c["o"].startswith("cancel_eager")) and c["pos"] == "first" and (not c["o"].startswith("cancel_eager") or (c["N"] == 1 and c["store"]))]
         groups(rnd.sample(cells, 420) + [dict(c) for c in forced], "mem", "basic")
         groups(rnd.sample(cells, 160), "mem", "pydantic")
         groups(rnd.sample(cells, 90), "redis", "basic")
@@ -110,6 +114,11 @@ def build_script(cell):
         steps.append({"do": "ok", "d": 5.0})
     elif o in ("badpayload", "depfail", "lostargs"):
         steps.append({"do": "ok"})
+    elif o.startswith("cancel_eager"):
+        st = {"do": "eager_on_cancel", "action": o.split(":")[1], "hang": 30.0, "next": POLICY_STEP}
+        if st["action"] in ("reject", "reschedule"):
+            st["then"] = {"do": "ok", "ret": "second-delivery"}
+        steps.append(st)
     elif o.startswith("depeager"):
         return {"eager_in_dep": o.split(":")[1]}
     else:
@@ -150,6 +159,8 @@ def classify_step(cell, st, attempt):
     if st["do"] in ("raise", "badret"):
         return ("fail", None)
     action = st["action"]
+    if st["do"] == "eager_on_cancel" and action == "retry" and attempt >= cell["N"]:
+        return ("fail", None)  # refused inside the cancellation handler: the execution simply timed out
     if action == "retry" and attempt >= cell["N"]:
         return ("fail", None)  # refused: ValueError inside the actor
     return ("eager", action)
@@ -224,11 +235,13 @@ async def scenario(loop, case, out, stats, fps, samples):
             cell["_script"] = build_script(cell)
             if cell["o"].startswith("badret"):
                 stats["cells_with_unencodable_return"] += 1
+            if cell["o"].startswith("cancel_eager"):
+                stats["answers_given_while_being_cancelled"] += 1
             id_ = f"c{i:03d}"
             ids[id_] = cell
             name = {"badpayload": "strict", "depfail": "depact"}.get(cell["o"], "guarded" if cell["o"].startswith("depeager") else "act")
             # execution timeouts of a day and more for the cells that are not about timing out (arithmetic on days)
-            long_to = [None, timedelta(days=1), timedelta(days=2, seconds=3)][i % 3] if "timeout" not in cell["o"] else None
+            long_to = [None, timedelta(days=1), timedelta(days=2, seconds=3)][i % 3] if "timeout" not in cell["o"] and not cell["o"].startswith("cancel_eager") else None
             kw = dict(retries=cell["N"], timeout=long_to or timedelta(seconds=1), store_result=cell["store"])
             if cell["rec"]:
                 kw["deferred_by"] = timedelta(seconds=PERIOD)
